@@ -220,6 +220,7 @@ type node struct {
 	sched    *stubSched
 	fetch    *stubFetcher
 	retryer  *retry.Retryer[core.Duty]
+	client   *nodeClient
 	dls      []*stubDeadliner
 
 	shutOnce sync.Once
@@ -270,6 +271,7 @@ type monParSigDB struct {
 }
 
 func (p monParSigDB) StoreExternal(ctx context.Context, duty core.Duty, set core.ParSignedDataSet) error {
+	p.nd.client.maybeOutage()
 	err := p.ParSigDB.StoreExternal(ctx, duty, set)
 	p.nd.w.mon.parsigStored(p.nd.idx, "external", duty, set, err)
 
@@ -277,6 +279,7 @@ func (p monParSigDB) StoreExternal(ctx context.Context, duty core.Duty, set core
 }
 
 func (p monParSigDB) StoreInternal(ctx context.Context, duty core.Duty, set core.ParSignedDataSet) error {
+	p.nd.client.maybeOutage()
 	err := p.ParSigDB.StoreInternal(ctx, duty, set)
 	p.nd.w.mon.parsigStored(p.nd.idx, "internal", duty, set, err)
 
@@ -304,23 +307,24 @@ func (w *world) newNode(i int) (*node, error) {
 
 		return d
 	}
-	gater, err := core.NewDutyGater(ctx, w.bmock)
+	nd.client = &nodeClient{Mock: w.bmock, env: w.env, failProb: 0.12, rng: w.r.Rand(w.c.Idx, 500+w.logical(i))}
+	gater, err := core.NewDutyGater(ctx, nd.client)
 	if err != nil {
 		return nil, err
 	}
 	sniff := func(inst *pbv1.SniffedConsensusInstance) { w.mon.sniffed(i, inst) }
 	sender := new(p2p.Sender)
-	nd.cons, err = cqbft.NewConsensus(ctx, w.bmock, nd.host, sender, w.peers, w.keys[i], dl(), gater, sniff, false)
+	nd.cons, err = cqbft.NewConsensus(ctx, nd.client, nd.host, sender, w.peers, w.keys[i], dl(), gater, sniff, false)
 	if err != nil {
 		return nil, err
 	}
 	nd.dutyDB = dutydb.NewMemDB(dl())
-	nd.vapi, err = validatorapi.NewComponent(w.bmock, w.pubShare, i+1, func(core.PubKey) string { return "" }, false, 30_000_000)
+	nd.vapi, err = validatorapi.NewComponent(nd.client, w.pubShare, i+1, func(core.PubKey) string { return "" }, false, 30_000_000)
 	if err != nil {
 		return nil, err
 	}
 	nd.parSigDB = parsigdb.NewMemDB(w.lock.Threshold, dl(), parsigdb.NewMemDBMetadata(slotSeconds, w.ch.genesisTime))
-	verify, err := parsigex.NewEth2Verifier(w.bmock, w.pubShare)
+	verify, err := parsigex.NewEth2Verifier(nd.client, w.pubShare)
 	if err != nil {
 		return nil, err
 	}
@@ -333,7 +337,7 @@ func (w *world) newNode(i int) (*node, error) {
 	// generous p2p timeouts: a loaded machine must not change what is accepted
 	nd.parSigEx = parsigex.NewParSigEx(nd.host, sender.SendAsync, i, w.ids, countingVerify, gater,
 		p2p.WithReceiveTimeout(10*time.Minute), p2p.WithSendTimeout(10*time.Minute))
-	nd.sigAgg, err = sigagg.New(w.lock.Threshold, sigagg.NewVerifier(w.bmock))
+	nd.sigAgg, err = sigagg.New(w.lock.Threshold, sigagg.NewVerifier(nd.client))
 	if err != nil {
 		return nil, err
 	}
@@ -350,6 +354,7 @@ func (w *world) newNode(i int) (*node, error) {
 		monBroadcaster{nd: nd},
 		core.WithAsyncRetry(nd.retryer))
 
+	nd.client.flaky.Store(w.p.BNFlaky[i]) // construction is over: from now on a flaky beacon node fails lookups
 	nd.cons.Start(ctx)
 	go nd.aggSigDB.Run(ctx)
 	go nd.parSigDB.Trim(ctx)
